@@ -3,10 +3,23 @@ WRAPS = ("psGetEntropy", "gettimeofday", "time", "clock_gettime")
 def run(ctx):
     st = [dict(variant="asan", name="c15", sources=["checks/c15_dead.c", "harness/mx_wraps.c"], wraps=WRAPS, libs=["-lcrypto"],
                shards=vflib.NCPU, timeout=7200 if ctx.thorough else 1200)]
-    rule = ("Each case = (scenario, role, cut point, error event, continuation) on a fork()ed clone of the live connection. Events: inbound alerts (descriptions x levels), "
-            "corrupted / oversize / wrong-version records, illegal handshake message, a genuine protected fatal alert or close_notify from the peer. Continuations: the peer's "
-            "next honest records, the original of the corrupted record, an older record, garbage, a fresh ClientHello, an application encode, full honest pumping, drain loops. "
+    rule = ("Each case = (scenario, role, cut point, error event, continuation) on a fork()ed clone of the live connection. Events: inbound alerts - plaintext, and authentic ones "
+            "sealed with the peer's keys where the connection is protected - for every description at level fatal AND level warning (quick: 10/20/40/47/80 at both levels, "
+            "user_canceled, no_renegotiation and an unassigned description at warning level, close_notify at both levels; thorough: every assigned description at both levels "
+            "plus level bytes 0/3/255), judged against a per-version reference table of what must end the session (TLS 1.3: every alert except user_canceled, whatever the level "
+            "byte, RFC 8446 6; TLS <= 1.2 and DTLS: level fatal, and close_notify at any level); corrupted / oversize / wrong-version records, illegal handshake message, a genuine "
+            "protected fatal alert or close_notify from the peer, authentic illegal handshake messages / content types; DTLS datagrams that end before the record they announce does "
+            "(inside the header, right behind the header, mid-body, one byte short, second record of a datagram cut short); send-side calls that must fail (oversize for the PMTU, "
+            "EncodeWritebuf beyond the reserved space / with a negative length, NULL buffer). Continuations: the peer's next honest records, the original of the damaged record, an "
+            "older record, garbage, a fresh ClientHello, an application encode, full honest pumping (the peer keeps sending valid records, also behind its close_notify), drain loops. "
+            "After a recognised event: no APP_DATA, encode fails, no output beyond the alert, receive calls report error/close. Events that must be fatal but were not recognised "
+            "are reported at the event (protocol-error-not-fatal; library-fatal-error-not-fatal for the DTLS truncation entry). "
             "distinct_nontrivial counts distinct (version, scenario, role, cut, state, event, continuation) tuples whose event the endpoint recognised as an error.")
     return vflib.std_run(ctx, st, "exploration", rule,
-        ["events the endpoint does not treat as errors (DTLS silently dropping a bad datagram, warning alerts) are counted but judged by C02, not here",
+        ["events the endpoint does not treat as errors (DTLS silently dropping a bad datagram, warning-level alerts in TLS <= 1.2, a DTLS datagram shorter than a record header, "
+         "send-side argument / limit errors that leave the session usable) are counted but not judged here (C02 / C16 judge modified and lost records)",
+         "DTLS truncated datagram with a complete record header: RFC 6347 4.1.2.7 allows silent discard as well as a fatal alert; the library defines it as fatal (illegal_parameter) in "
+         "every state, like every other damaged DTLS record, and the property statement tolerates undecryptable records only while a TLS 1.3 server skips rejected early data - so the "
+         "check asserts that this library-defined fatal error stays fatal (key c15:library-fatal-error-not-fatal:*); a deliberate move to silent discard must change this table entry",
+         "received user_canceled (TLS 1.3) and warning-level alerts other than close_notify (TLS <= 1.2, DTLS) may be ignored or may end the session: not asserted either way",
          "sending close_notify locally is not treated as death (the statement lists received close_notify only)"], min_nontrivial=500)
